@@ -306,6 +306,17 @@ pub fn gen(prop: &str, seed: u64, index: u64, _tier: Tier) -> Case {
             p.add_file(&g, B(d));
         }
     }
+    // stray files beside generated paths (what an interrupted run of some other version, an
+    // editor or a tool may leave behind)
+    for g in a.gen_all() {
+        if rng.chance(1, 10) {
+            let ext = *rng.pick(&[".lock", ".tmp", ".part", "~", ".bak", ".swp", ".new"]);
+            let path = format!("{g}{ext}");
+            if p.file(&path).is_none() {
+                p.add_file(&path, B::s("stray\n"));
+            }
+        }
+    }
     // 150 KiB of text for the flooding shell
     let mut flood = String::new();
     while flood.len() < 150 * 1024 {
@@ -341,6 +352,8 @@ pub fn gen(prop: &str, seed: u64, index: u64, _tier: Tier) -> Case {
             "echo   ",
             // a "shell" that ignores the command and floods stdout (more than a pipe buffer holds)
             "cat @ROOT@/flood.txt",
+            // a "shell" that ignores the command and reads its standard input
+            "sh -c cat",
         ]))
         .to_string();
         if build_verify {
